@@ -28,7 +28,10 @@ One JSON "case" per (app, variant):
 Usage:  c20_apps.py --tier quick|thorough --out FILE --deadline SEC
         c20_apps.py --replay FILE [--repeat N]
         c20_apps.py --list [--tier T]         (planned runs per case)
-        options: --app NAME (restrict), --case SUBSTR, --lanes N, --keep
+        options: --app NAME[,NAME] (restrict), --case SUBSTR, --lanes N,
+                 --keep (graph files)
+        env C20_BIN_OVERRIDE="target=/path,..." runs other binaries (a
+        candidate fix or a mutant built elsewhere) instead of the tree's
 Exit 0: no violation; 1: violations (each with a replay file); 2: machinery.
 """
 import os
@@ -601,9 +604,10 @@ class PageRank(App):
       pull Residual: 0 <= x* - x <= K * tol * x*/0.15 with K = 12: this
                     variant DROPS a sub-tolerance residual whenever a new one
                     arrives (documented in its source: 'not reflected'), so
-                    only a multiple can be promised; K is 3x the largest
-                    ratio observed over the fixed input set (deterministic:
-                    the algorithm is bulk-synchronous without races)
+                    only a multiple can be promised; the largest ratio over
+                    the fixed input sets is 2.6 (cell max_residual_ratio) and
+                    it cannot vary: the algorithm is bulk-synchronous without
+                    races, so its result is a function of the input alone
     plus PR_SLACK for float32 / printing."""
     edge_size = 0
     base_topo = False
@@ -1368,6 +1372,16 @@ def build_apps():
     for t in res["failed"]:
         print("# NOT BUILT on this tree (skipped, not an alarm): %s" % t,
               flush=True)
+    # development aid (trying a candidate fix / a mutant built elsewhere):
+    # C20_BIN_OVERRIDE="target=/path/to/binary,target2=..."
+    ov = os.environ.get("C20_BIN_OVERRIDE", "")
+    if ov:
+        res = dict(res, bins=dict(res["bins"]))
+        for kv in ov.split(","):
+            k, v = kv.split("=", 1)
+            res["bins"][k] = v
+            print("# OVERRIDE %s -> %s (NOT the tree's binary)" % (k, v),
+                  flush=True)
     return res
 
 
